@@ -266,7 +266,7 @@ peg::parser! {
                 if value < 0 {
                     Err("integer must be non-negative")
                 } else {
-                    Ok(value as u32)
+                    u32::try_from(value).map_err(|_| "integer out of range")
                 }
             }
     }
